@@ -67,10 +67,19 @@ def local_origin(fn, l, depth, seen, maxdepth):
     seen = seen | {l}
     if fn.kind in ("closure", "coroutine") and l == 1:
         return ("self_closure",)
-    if 1 <= l <= fn.argc:
-        return ("param", l, fn.local_name(l))
     defs = fn.defs().get(l, [])
     whole = [d for d in defs if d[2] in ("assign", "call", "yield")]
+    if 1 <= l <= fn.argc:
+        if not whole:
+            return ("param", l, fn.local_name(l))
+        # a `mut` parameter that is reassigned: its value is the parameter or any of the assignments
+        terms = [("param", l, fn.local_name(l))]
+        for (bb, idx, kind, payload) in whole:
+            if kind == "assign":
+                terms.append(rvalue_origin(fn, payload["rv"], depth + 1, seen, maxdepth))
+            elif kind == "call":
+                terms.append(call_origin(fn, payload, depth + 1, seen, maxdepth))
+        return ("phi", tuple(terms))
     partial = [d for d in defs if d[2] == "partial"]
     if not whole:
         if partial:
